@@ -741,6 +741,67 @@ func (e *Env) CreateIndex(ns string, s IndexSpec) Call {
 	}}
 }
 
+func indexModel(s IndexSpec) mongo.IndexModel {
+	o := options.Index()
+	if s.Name != "" {
+		o.SetName(s.Name)
+	}
+	if s.Unique {
+		o.SetUnique(true)
+	}
+	if s.Partial != nil {
+		o.SetPartialFilterExpression(s.Partial)
+	}
+	if s.Expire >= 0 {
+		o.SetExpireAfterSeconds(int32(s.Expire))
+	}
+	return mongo.IndexModel{Keys: s.Key, Options: o}
+}
+
+// CreateIndexes is IndexView.CreateMany: several indexes in one call.
+func (e *Env) CreateIndexes(ns string, specs []IndexSpec) Call {
+	sl := []interface{}{}
+	for _, s := range specs {
+		e.T.Add(s.Name)
+		sl = append(sl, V{"key": e.T.Val(s.Key), "name": s.Name, "unique": s.Unique, "partial": e.optDoc(s.Partial), "exp": s.Expire})
+	}
+	return Call{Op: "createIndexes", NS: ns, A: V{"specs": sl}, Run: func(e *Env) V {
+		models := []mongo.IndexModel{}
+		for _, s := range specs {
+			models = append(models, indexModel(s))
+		}
+		names, err := e.coll(ns).Indexes().CreateMany(e.Ctx, models)
+		if err != nil {
+			return errRes(err)
+		}
+		r := baseRes()
+		nl := []interface{}{}
+		for _, n := range names {
+			e.T.Add(n)
+			nl = append(nl, n)
+		}
+		r["names"] = nl
+		return r
+	}}
+}
+
+// UpdateByID is UpdateOne with the filter {_id: id}.
+func (e *Env) UpdateByID(ns string, id interface{}, upd bson.D) Call {
+	c := e.Update(ns, false, bson.D{{Key: "_id", Value: id}}, upd, false, nil)
+	inner := c.Run
+	c.Run = func(e *Env) V {
+		res, err := e.coll(ns).UpdateByID(e.Ctx, id, upd)
+		if err != nil {
+			return errRes(err)
+		}
+		_ = inner
+		r := baseRes()
+		r["n"] = counts(0, res.MatchedCount, res.ModifiedCount, 0, res.UpsertedCount)
+		return r
+	}
+	return c
+}
+
 // DropIndex ...
 func (e *Env) DropIndex(ns, name string) Call {
 	e.T.Add(name)
